@@ -465,9 +465,100 @@ def full_table(ctx, n, limit_extra):
     b._ref = {1: 0}
 
 
+def autoref_foreign(ctx, n):
+    """calls of dd.autoref that are handed a Function of ANOTHER manager (or a non-Function):
+    each wrapper must refuse (an exception), and neither manager may change: same tables,
+    exact counts (one reference per live Function), same functions.  Implementation and
+    oracle only (the model's handles are per manager)."""
+    import dd.autoref as _a
+    rng = ctx.rng
+    names = [vname(i) for i in range(n)]
+
+    def mk():
+        b = _a.BDD()
+        b.declare(*names)
+        fs = []
+        for _ in range(3):
+            t = rng.getrandbits(1 << n)
+            f = b.false
+            for k in range(1 << n):
+                if (t >> k) & 1:
+                    f = f | b.cube({names[j]: bool(T.getbit(k, j, n)) for j in range(n)})
+            fs.append(f)
+        return b, fs
+    A, fa = mk()
+    B, fb = mk()
+    f, g, h = fa[0], fb[0], fa[1]
+
+    def snap(b, fs):
+        return (dict(b._bdd._succ), dict(b._bdd._ref), dict(b._bdd.vars),
+                [oracle.tt_fast(b._bdd, x.node, names) for x in fs])
+    calls = {
+        'apply(and, f, g)': lambda: A.apply('and', f, g),
+        'apply(and, g, f)': lambda: A.apply('and', g, f),
+        'apply(ite, f, h, g)': lambda: A.apply('ite', f, h, g),
+        'ite(g, f, h)': lambda: A.ite(g, f, h),
+        'ite(f, g, h)': lambda: A.ite(f, g, h),
+        'ite(f, h, g)': lambda: A.ite(f, h, g),
+        'let({x: g}, f)': lambda: A.let({names[0]: g}, f),
+        'let({x: f}, g)': lambda: A.let({names[0]: f}, g),
+        'let({x: f, y: True}, h)': lambda: A.let({names[0]: f, names[1 % n]: True}, h),
+        'quantify(g)': lambda: A.quantify(g, [names[0]]),
+        'exist(g)': lambda: A.exist([names[0]], g),
+        'support(g)': lambda: A.support(g),
+        'count(g)': lambda: A.count(g),
+        'pick_iter(g)': lambda: list(A.pick_iter(g)),
+        'to_expr(g)': lambda: A.to_expr(g),
+        'copy(g, B)': lambda: A.copy(g, B),
+        'f & g': lambda: f & g,
+        'f | g': lambda: f | g,
+        'f.implies(g)': lambda: f.implies(g),
+        'f.equiv(g)': lambda: f.equiv(g),
+        'f == g': lambda: f == g,
+        'f != g': lambda: f != g,
+        'f <= g': lambda: f <= g,
+        'f < g': lambda: f < g,
+        'f == 3': lambda: f == 3,
+        'f <= 3': lambda: f <= 3,
+        'image(f, g)': lambda: _a.image(f, g, {names[1 % n]: names[0]}, {names[0]}),
+        'preimage(f, g)': lambda: _a.preimage(f, g, {names[0]: names[1 % n]}, {names[1 % n]}),
+        'g in A': lambda: g in A,
+        'dump roots of B': lambda: A.dump('/nonexistent-dir/x.p', [g]),
+    }
+    case = dict(stream=f'autoref foreign arguments n={n}')
+    for what, call in calls.items():
+        sa, sb = snap(A, fa), snap(B, fb)
+        try:
+            r = call()
+            outcome = 'returned'
+        except Exception as e:  # noqa: B902
+            r = None
+            outcome = type(e).__name__
+        ctx.case(('autoref-foreign', n, what), True)
+        ctx.count('autoref-foreign:' + ('refused' if outcome != 'returned' else 'returned'))
+        if outcome == 'returned' and what not in ('f == 3', 'f <= 3'):
+            ctx.violation('C17:accepted', f'dd.autoref accepted a Function of another manager: {what} returned {r!r}',
+                          dict(case, call=what))
+        del r
+        if snap(A, fa) != sa or snap(B, fb) != sb:
+            ctx.violation('C17:reference-changed', f'a manager changed during the refused call {what} ({outcome})',
+                          dict(case, call=what))
+            break
+    for b, fs in ((A, fa), (B, fb)):
+        ext = {1: 1}
+        for x in fs:
+            ext[abs(x.node)] = ext.get(abs(x.node), 0) + 1
+        b.collect_garbage()
+        bad = oracle.check_table(b._bdd, external=ext)
+        if bad:
+            ctx.violation('C17:not-canonical', f'after the refused calls: {bad[:3]}', case)
+
+
 def run(ctx):
     q = ctx.quick
     rng = ctx.rng
+    for n in ((2, 3) if q else (2, 3, 3, 4, 4)):
+        autoref_foreign(ctx, n)
     for n in (2, 3, 4):
         for extra in ((1, 3) if q else (1, 2, 3, 5, 8, 13)):
             full_table(ctx, n, extra)
